@@ -22,7 +22,8 @@ use std::collections::BTreeMap;
 use std::sync::atomic::{AtomicBool, AtomicU64, Ordering};
 
 pub const ANON_PREFIXES: [&str; 2] = ["_input", "_state"];
-pub const SIM_STEPS: usize = 3;
+pub const SIM_STEPS_QUICK: usize = 3;
+pub const SIM_STEPS_THOROUGH: usize = 4;
 
 #[derive(Clone, Copy, Debug, PartialEq, Eq)]
 pub enum Pass {
@@ -97,7 +98,7 @@ fn functions(sys: &TransitionSystem) -> Vec<(&'static str, usize, ExprRef)> {
     v
 }
 
-pub fn check_case(spec: &SysSpec, named: bool, pass: Pass) -> (Option<Fail>, Info) {
+pub fn check_case(spec: &SysSpec, named: bool, pass: Pass, sim_steps: usize) -> (Option<Fail>, Info) {
     let mut info = Info::default();
     let mut ctx = Context::default();
     let built = spec.build(&mut ctx);
@@ -180,7 +181,17 @@ pub fn check_case(spec: &SysSpec, named: bool, pass: Pass) -> (Option<Fail>, Inf
         .zip(ts_b.input_tys.iter())
         .map(|(i, t)| if removed.contains(i) { vec![zero_val(*t)] } else { Ts::all_values(*t) })
         .collect();
-    let mut valuations: Option<(Vec<Vec<Val>>, Vec<Vec<Val>>)> = None;
+    // pairs (original, new) that must denote the same function: changed init/next/output/bad/
+    // constraint expressions, and expressions a surviving name moved to
+    struct Pair {
+        class: &'static str,
+        shape: String,
+        w: u32,
+        label: String,
+        eb: ExprRef,
+        ea: ExprRef,
+    }
+    let mut pairs: Vec<Pair> = vec![];
     for ((slot, idx, eb), (_, _, ea)) in fb.iter().zip(fa.iter()) {
         if eb == ea {
             continue;
@@ -200,40 +211,9 @@ pub fn check_case(spec: &SysSpec, named: bool, pass: Pass) -> (Option<Fail>, Inf
                 return (Some(fail("typecheck", &shape, w, format!("{}: a node of the new {slot} {idx} fails patronus' type_check: {}", pass.name(), e.get_msg()))), info);
             }
         }
-        let (sts, ins) = valuations.get_or_insert_with(|| (product(&state_alph), product(&input_alph_b)));
-        // init functions read states only; evaluating them under a full valuation is harmless
-        for st in sts.iter() {
-            for inp in ins.iter() {
-                info.valuations += 1;
-                let env = ts_b.env(st, inp);
-                let vb = eval_ref(&ctx, *eb, &env);
-                let va = eval_ref(&ctx, *ea, &env);
-                if vb != va {
-                    return (
-                        Some(fail(
-                            "value",
-                            &shape,
-                            w,
-                            format!(
-                                "{}: {slot} {idx} `{}` became `{}`: {} instead of {} with states [{}] inputs [{}]{}",
-                                pass.name(),
-                                show_expr(&ctx, *eb),
-                                show_expr(&ctx, *ea),
-                                va.show(),
-                                vb.show(),
-                                vkey(st),
-                                vkey(inp),
-                                if removed.is_empty() { "" } else { " (removed inputs bound to 0)" }
-                            ),
-                        )),
-                        info,
-                    );
-                }
-            }
-        }
+        pairs.push(Pair { class: "value", shape, w, label: format!("{slot} {idx}"), eb: *eb, ea: *ea });
     }
-
-    // ---- names: a name that survives denotes the same function as before
+    // names: a name that survives denotes the same function as before
     if named {
         let mut old_names: BTreeMap<String, ExprRef> = BTreeMap::new();
         for e in nodes_of(&ctx, &root_exprs(&before)) {
@@ -254,16 +234,44 @@ pub fn check_case(spec: &SysSpec, named: bool, pass: Pass) -> (Option<Fail>, Inf
                 continue;
             }
             info.names_checked += 1;
-            if symbols_of(&ctx, &[e_new]).iter().any(|s| removed.contains(s)) {
-                continue; // reported above when reachable from a root; otherwise not part of the system
+            let shape = format!("name:{}", expr_op_name(&ctx, *e_old));
+            let w = ty_width(ty_of(&ctx, *e_old));
+            if type_ref(&ctx, *e_old).ok() != type_ref(&ctx, e_new).ok() {
+                return (Some(fail("name-moved", &shape, w, format!("{}: the name {n} of `{}` now labels `{}` which has a different type", pass.name(), show_expr(&ctx, *e_old), show_expr(&ctx, e_new)))), info);
             }
-            let (sts, ins) = valuations.get_or_insert_with(|| (product(&state_alph), product(&input_alph_b)));
-            for st in sts.iter() {
-                for inp in ins.iter() {
-                    let env = ts_b.env(st, inp);
-                    if type_ref(&ctx, *e_old).ok() != type_ref(&ctx, e_new).ok() || eval_ref(&ctx, *e_old, &env) != eval_ref(&ctx, e_new, &env) {
+            pairs.push(Pair { class: "name-moved", shape, w, label: format!("name {n}"), eb: *e_old, ea: e_new });
+        }
+    }
+    if !pairs.is_empty() {
+        let (sts, ins) = (product(&state_alph), product(&input_alph_b));
+        // init functions read states only; evaluating them under a full valuation is harmless
+        for st in sts.iter() {
+            for inp in ins.iter() {
+                let env = ts_b.env(st, inp);
+                let mut memo = rustc_hash::FxHashMap::default();
+                for p in pairs.iter() {
+                    info.valuations += 1;
+                    let vb = eval_ref_memo(&ctx, p.eb, &env, &mut memo);
+                    let va = eval_ref_memo(&ctx, p.ea, &env, &mut memo);
+                    if vb != va {
                         return (
-                            Some(fail("name-moved", &format!("name:{}", expr_op_name(&ctx, *e_old)), ty_width(ty_of(&ctx, *e_old)), format!("{}: the name {n} of `{}` now labels `{}` which is a different function", pass.name(), show_expr(&ctx, *e_old), show_expr(&ctx, e_new)))),
+                            Some(fail(
+                                p.class,
+                                &p.shape,
+                                p.w,
+                                format!(
+                                    "{}: {} `{}` became `{}`: {} instead of {} with states [{}] inputs [{}]{}",
+                                    pass.name(),
+                                    p.label,
+                                    show_expr(&ctx, p.eb),
+                                    show_expr(&ctx, p.ea),
+                                    va.show(),
+                                    vb.show(),
+                                    vkey(st),
+                                    vkey(inp),
+                                    if removed.is_empty() { "" } else { " (removed inputs bound to 0)" }
+                                ),
+                            )),
                             info,
                         );
                     }
@@ -275,7 +283,7 @@ pub fn check_case(spec: &SysSpec, named: bool, pass: Pass) -> (Option<Fail>, Inf
     // ---- lock-step reference simulation (only when something changed: identical systems have
     //      identical executions by construction of the reference)
     if info.changed || !removed.is_empty() {
-        if let Some(f) = lockstep(&ctx, &before, &after, &removed, pass, &mut info) {
+        if let Some(f) = lockstep(&ctx, &before, &after, &removed, pass, sim_steps, &mut info) {
             return (Some(f), info);
         }
     }
@@ -290,10 +298,10 @@ fn zero_val(t: Ty) -> Val {
 }
 
 /// Both systems start in the same initial states and are driven by every input sequence of
-/// length SIM_STEPS (removed inputs are 0 on the original side); outputs, bads, constraints and
+/// length `sim_steps` (removed inputs are 0 on the original side); outputs, bads, constraints and
 /// successor sets must agree at every step. States reached are merged per layer (both systems
 /// are in the same state, which is what is being checked).
-fn lockstep(ctx: &Context, before: &TransitionSystem, after: &TransitionSystem, removed: &[ExprRef], pass: Pass, info: &mut Info) -> Option<Fail> {
+fn lockstep(ctx: &Context, before: &TransitionSystem, after: &TransitionSystem, removed: &[ExprRef], pass: Pass, sim_steps: usize, info: &mut Info) -> Option<Fail> {
     let ts_b = Ts::new(ctx, before);
     let ts_a = Ts::new(ctx, after);
     let mut ib = ts_b.initial_states();
@@ -316,7 +324,7 @@ fn lockstep(ctx: &Context, before: &TransitionSystem, after: &TransitionSystem, 
             layer.push(s);
         }
     }
-    for step in 0..SIM_STEPS {
+    for step in 0..sim_steps {
         let mut next = vec![];
         let mut nk = FxHashSet::default();
         info.sim_states += layer.len() as u64;
@@ -326,8 +334,10 @@ fn lockstep(ctx: &Context, before: &TransitionSystem, after: &TransitionSystem, 
                 let inp_b = widen(inp_a);
                 let env_b = ts_b.env(st, &inp_b);
                 let env_a = ts_a.env(st, inp_a);
-                let cmp = |kind: &str, k: usize, eb: ExprRef, ea: ExprRef| -> Option<Fail> {
-                    let (vb, va) = (eval_ref(ctx, eb, &env_b), eval_ref(ctx, ea, &env_a));
+                let mut memo_b = rustc_hash::FxHashMap::default();
+                let mut memo_a = rustc_hash::FxHashMap::default();
+                let mut cmp = |kind: &str, k: usize, eb: ExprRef, ea: ExprRef| -> Option<Fail> {
+                    let (vb, va) = (eval_ref_memo(ctx, eb, &env_b, &mut memo_b), eval_ref_memo(ctx, ea, &env_a, &mut memo_a));
                     if vb != va {
                         Some(fail(
                             "lockstep",
@@ -354,8 +364,14 @@ fn lockstep(ctx: &Context, before: &TransitionSystem, after: &TransitionSystem, 
                         return Some(f);
                     }
                 }
-                let sb = ts_b.successors(st, &inp_b);
-                let sa = ts_a.successors(st, inp_a);
+                // successors: next functions evaluated simultaneously on (state, inputs); a
+                // next-less state takes every value
+                let succ = |sys: &TransitionSystem, tys: &[Ty], env: &Env, memo: &mut rustc_hash::FxHashMap<ExprRef, Val>| -> Vec<Vec<Val>> {
+                    let alph: Vec<Vec<Val>> = sys.states.iter().zip(tys.iter()).map(|(s, t)| match s.next { Some(n) => vec![eval_ref_memo(ctx, n, env, memo)], None => Ts::all_values(*t) }).collect();
+                    product(&alph)
+                };
+                let sb = succ(before, &ts_b.state_tys, &env_b, &mut memo_b);
+                let sa = succ(after, &ts_a.state_tys, &env_a, &mut memo_a);
                 if sb != sa {
                     return Some(fail("lockstep", "next", 0, format!("{}: at step {step} the successors of state [{}] under inputs [{}] differ from the original's", pass.name(), vkey(st), vkey(inp_a))));
                 }
@@ -402,7 +418,7 @@ pub fn rename_variants(spec: &SysSpec) -> Vec<SysSpec> {
 }
 
 pub fn meta(rep: &mut Report) {
-    rep.rule = "systems = S1 (full pools incl. div/rem) + S3(3) of skeletons K1..K7 (thorough: S1 + S3(4) + S2(32) + S3(5) of K1/K3/K4/K7), hand-built swap/delay/count2/delayin and an array-input system; each with and without names on every intermediate node. simplify_expressions runs on every system; replace_anonymous_inputs_with_zero runs on every renaming variant (0, 1 or 2 of the inputs/states renamed to _input_<n> / _state_<n>). Oracle: input/state lists (minus the anonymous inputs), no init/next dropped or added, root counts and output names, type of every changed function, equality of every changed function with the original under ALL valuations of states and inputs (removed inputs = 0), no removed or undeclared symbol in the result, surviving names label equivalent functions, lock-step reference simulation over all input sequences of length 3 from all initial states. evaluations = transformation calls; distinct_nontrivial = distinct (system, naming, pass) cases in which at least one init/next/output/bad/constraint expression changed".into();
+    rep.rule = "systems = S1 (full pools incl. div/rem) + S3(3) of skeletons K1..K7 (thorough: S1 + S3(4) + S2(32) + S3(5) of K1/K3/K4/K7), hand-built swap/delay/count2/delayin and an array-input system; each with and without names on every intermediate node. simplify_expressions runs on every system; replace_anonymous_inputs_with_zero runs on every renaming variant (0, 1 or 2 of the inputs/states renamed to _input_<n> / _state_<n>). Oracle: input/state lists (minus the anonymous inputs), no init/next dropped or added, root counts and output names, type of every changed function, equality of every changed function with the original under ALL valuations of states and inputs (removed inputs = 0), no removed or undeclared symbol in the result, surviving names label equivalent functions, lock-step reference simulation over all input sequences of length 3 (quick) / 4 (thorough) from all initial states. evaluations = transformation calls; distinct_nontrivial = distinct (system, naming, pass) cases in which at least one init/next/output/bad/constraint expression changed".into();
     rep.assumptions = vec![
         "an input is anonymous iff its name starts with `_input` or `_state` (the constants of btor2/parse.rs); the pass looks at sys.inputs only, a state with such a name stays".into(),
         "init expressions read earlier states only (no inputs), so anonymous inputs never occur in init".into(),
@@ -415,6 +431,7 @@ struct Case {
     spec: SysSpec,
     named: bool,
     pass: Pass,
+    steps: usize,
 }
 
 fn case_json(c: &Case) -> Value {
@@ -423,8 +440,8 @@ fn case_json(c: &Case) -> Value {
 
 fn report(c: &Case, f: &Fail, order: u64, rep: &Report) {
     let class = f.class.clone();
-    let min = shrink_spec(&c.spec, &|s| matches!(check_case(s, c.named, c.pass).0, Some(g) if g.class == class));
-    let f2 = check_case(&min, c.named, c.pass).0.filter(|g| g.class == class).unwrap_or_else(|| f.clone());
+    let min = shrink_spec(&c.spec, &|s| matches!(check_case(s, c.named, c.pass, c.steps).0, Some(g) if g.class == class));
+    let f2 = check_case(&min, c.named, c.pass, c.steps).0.filter(|g| g.class == class).unwrap_or_else(|| f.clone());
     // the root operator of the original function tells simplifier rules apart; for the zero pass
     // (one substitution, whatever the operator) only the slot kind is kept
     let shape = if c.pass == Pass::Zero { f2.shape.split(':').next().unwrap_or("-").to_string() } else { f2.shape.clone() };
@@ -432,7 +449,7 @@ fn report(c: &Case, f: &Fail, order: u64, rep: &Report) {
     rep.violation(Violation {
         sig,
         what: format!("[{}{}] {}", sys_class(&c.spec), if c.named { ", named nodes" } else { "" }, f2.what),
-        case: json!({"system": min.to_json(), "named": c.named, "pass": c.pass.name(), "found_in": c.spec.to_json()}),
+        case: json!({"system": min.to_json(), "named": c.named, "pass": c.pass.name(), "sim_steps": c.steps, "found_in": c.spec.to_json()}),
         order,
     });
 }
@@ -442,6 +459,8 @@ pub fn run(opts: &Opts, rep: &Report) {
     let budget = Budget::new(opts.budget_s);
     let specs = system_family(tier, true);
     rep.add("systems", specs.len() as u64);
+    let steps = if tier.is_thorough() { SIM_STEPS_THOROUGH } else { SIM_STEPS_QUICK };
+    rep.note("lockstep_input_sequence_length", json!(steps));
     // oracle-side vacuity: the family must contain what the property quantifies over
     let has = |f: &dyn Fn(&SysSpec) -> bool| specs.iter().any(|s| f(s));
     if !(has(&|s| s.has_arrays()) && has(&|s| s.states.iter().any(|st| st.init.is_none())) && has(&|s| s.states.iter().any(|st| st.next.is_none())) && has(&|s| s.states.iter().any(|st| s.outputs.iter().any(|(_, t)| *t == T::Sym(st.name.clone(), st.ty)) && s.bads.iter().any(|t| *t == T::Sym(st.name.clone(), st.ty)))))
@@ -460,21 +479,21 @@ pub fn run(opts: &Opts, rep: &Report) {
         }
         let mut cases: Vec<Case> = vec![];
         for named in [false, true] {
-            cases.push(Case { spec: spec.clone(), named, pass: Pass::Simplify });
+            cases.push(Case { spec: spec.clone(), named, pass: Pass::Simplify, steps });
         }
         for (vi, v) in rename_variants(spec).into_iter().enumerate() {
             // names do not interact with the renaming: named nodes on the unrenamed system and on
             // the variants that anonymise one symbol
-            cases.push(Case { spec: v.clone(), named: false, pass: Pass::Zero });
+            cases.push(Case { spec: v.clone(), named: false, pass: Pass::Zero, steps });
             let n_syms = spec.inputs.len() + spec.states.len();
             if vi <= 2 * n_syms {
-                cases.push(Case { spec: v, named: true, pass: Pass::Zero });
+                cases.push(Case { spec: v, named: true, pass: Pass::Zero, steps });
             }
         }
         let mut counts: BTreeMap<String, u64> = BTreeMap::new();
         let mut nontrivial = vec![];
         for (ci, c) in cases.iter().enumerate() {
-            let (f, info) = check_case(&c.spec, c.named, c.pass);
+            let (f, info) = check_case(&c.spec, c.named, c.pass, c.steps);
             *counts.entry("evaluations".into()).or_default() += 1;
             *counts.entry(format!("cases:{}", c.pass.name())).or_default() += 1;
             *counts.entry("functions_compared".into()).or_default() += info.functions_compared;
@@ -514,8 +533,8 @@ pub fn run(opts: &Opts, rep: &Report) {
 
 pub fn replay(case: &Value, rep: &Report) {
     let spec = SysSpec::from_json(&case["system"]).expect("system");
-    let c = Case { spec, named: case["named"].as_bool().unwrap_or(false), pass: Pass::from_name(case["pass"].as_str().unwrap_or("simplify")) };
-    if let (Some(f), _) = check_case(&c.spec, c.named, c.pass) {
+    let c = Case { spec, named: case["named"].as_bool().unwrap_or(false), pass: Pass::from_name(case["pass"].as_str().unwrap_or("simplify")), steps: case["sim_steps"].as_u64().unwrap_or(SIM_STEPS_QUICK as u64) as usize };
+    if let (Some(f), _) = check_case(&c.spec, c.named, c.pass, c.steps) {
         report(&c, &f, 0, rep);
     }
 }
